@@ -214,8 +214,12 @@ def _check_several_indexed(seed, i):
     depth2 = rng.random() < 0.4
     calls = []
     for _ in range(n):
-        idxarg = rng.choice(["${idx}", "1", "position(..)", "${idx} + 1"])
+        idxarg = rng.choice(["${idx}", "1", "position(..)", "${idx} + 1", "${idx} + ${idx}"])
         calls.append(f"indexed-repeat(${{a}}, ${{r}}, {idxarg})")
+    same_name = rng.random() < 0.35
+    if same_name:
+        # the value argument and the index argument mention the SAME question: the first stays absolute, the index one is relative
+        calls[rng.randrange(len(calls))] = "indexed-repeat(${idx}, ${r}, ${idx})"
     glue = rng.choice([" + ", ", "])
     pieces = []
     for k, c in enumerate(calls):
@@ -242,10 +246,12 @@ def _check_several_indexed(seed, i):
         return {"i": i, "skip": "cell calculation not located"}
     if "${" in val:
         return {"i": i, "form": form, "what": f"a ${{...}} token survives: {val!r}"}
-    n_idx = expr.count("${idx}")
-    if val.count("../idx") != n_idx or (base + "/idx") in val:
+    n_idx = expr.count("${idx}") - (1 if same_name else 0)
+    if same_name and val.count(f" {base}/idx ,") != 1:
+        return {"i": i, "form": form, "what": f"indexed-repeat(${{idx}}, ${{r}}, ${{idx}}): the first argument must be the absolute path {base}/idx; got {val!r}"}
+    if val.count("../idx") != n_idx or ((base + "/idx") in val and not same_name):
         return {"i": i, "form": form, "what": f"calculation with {n} indexed-repeat() calls: {n_idx} reference(s) to ${{idx}} must be relative (../idx); got {val!r}"}
-    if val.count(f" {base}/a ") != n or val.count(f" {base} ,") + val.count(f" {base} )") + val.count(f" {base}  ,") < n:
+    if val.count(f" {base}/a ") != n - (1 if same_name else 0) or val.count(f" {base} ,") + val.count(f" {base} )") + val.count(f" {base}  ,") < n:
         return {"i": i, "form": form, "what": f"calculation with {n} indexed-repeat() calls: the first two arguments of every call must be absolute; got {val!r}"}
     return {"i": i, "ok": True, "key": ("calculation", "several-indexed", n, n_idx), "rel": True}
 
